@@ -4,7 +4,7 @@ facts of daemon/proxyd.c -> lean/ZvbiModel/Generated/ProxyQLayout.lean (written 
 
 1. A C probe that `#include`s daemon/proxyd.c (so the file-local #defines, enums and struct types are
    visible) is compiled against /repo's current tree and prints the numbers the model uses.
-2. Four textual facts are read from the source, because the model branches on them and three of them
+2. Five textual facts are read from the source, because the model branches on them and most of them
    are the sites of the defects C18 found (the proposed repairs change exactly these texts):
      assertLineCountStrict  forward_data asserts `line_count <  max_lines` (true) or `<=` (false)
      forceFreeLiveHead      force_free compares every client with the *live* `p_proxy_dev->p_sliced`
@@ -12,6 +12,8 @@ facts of daemon/proxyd.c -> lean/ZvbiModel/Generated/ProxyQLayout.lean (written 
      filterBoundsInput      send_sliced bounds the *input* index by the client's line count (true)
                             or the number of lines copied (false)
      destroyStopsFirst      vbi_proxyd_destroy frees the queue before closing the clients (true)
+     updReleasesLostGrant   vbi_proxyd_update_services releases the queue of a client whose grant became
+                            empty (true: the repair of defect D6) or does not touch the queue (false)
    Any other shape of these four places makes the translator fail (the check then reports it).
 The harness prints the same numbers from the compiled daemon (`consts` op) and the check compares.
 """
@@ -121,6 +123,15 @@ def shape_facts():
     if not re.search(r"if \(p_buf->ref_count > 0\) p_buf->ref_count -= 1; if \(p_buf->ref_count == 0\) \{ "
                      r"assert\(p_proxy_dev->p_sliced == p_buf\);", rs):
         raise SystemExit("gen_proxyq: vbi_proxy_queue_release_sliced has an unknown shape")
+    us = func_body(src, "vbi_proxyd_update_services")
+    if re.search(r"if \(req->all_services == 0\) \{ pthread_mutex_lock\(&p_proxy_dev->queue_mutex\); "
+                 r"while \(req->p_sliced != NULL\) vbi_proxy_queue_release_sliced\(req\); "
+                 r"pthread_mutex_unlock\(&p_proxy_dev->queue_mutex\); \}", us):
+        facts["updReleasesLostGrant"] = True
+    elif "vbi_proxy_queue_release_sliced" in us or "p_sliced" in us:
+        raise SystemExit("gen_proxyq: vbi_proxyd_update_services touches the queue in an unknown way")
+    else:
+        facts["updReleasesLostGrant"] = False
     ds = func_body(src, "vbi_proxyd_destroy")
     i_stop = ds.find("vbi_proxy_stop_acquisition")
     i_close = ds.find("vbi_proxyd_close")
@@ -165,7 +176,7 @@ def main():
     for n in NAMES:
         out.append("def %s : Nat := %d" % (n, vals[n]))
     out.append("")
-    for n in ("assertLineCountStrict", "forceFreeLiveHead", "filterBoundsInput", "destroyStopsFirst"):
+    for n in ("assertLineCountStrict", "forceFreeLiveHead", "filterBoundsInput", "destroyStopsFirst", "updReleasesLostGrant"):
         out.append("def %s : Bool := %s" % (n, "true" if facts[n] else "false"))
     out += ["", "end Zvbi.Gen.ProxyQ", ""]
     text = "\n".join(out)
